@@ -662,3 +662,141 @@ func init() {
 		}
 	})
 }
+
+// ---------------------------------------------------------------- rewriting wrappers on the input path
+
+// inputRewriters: between the caller's io.Reader and a format's decoder only wrappers that pass every byte through
+// unchanged may sit unconditionally (bufio, line counting). A wrapper that rewrites the byte stream
+// (ios.NewBytesReplacingReader, x/text transformers, limit/section readers, ...) changes what every record of the input
+// is parsed from; it is legitimate only where the schema asks for it, i.e. when the wrapping is control-dependent on a
+// declared setting (replace_double_quotes, ignore_crlf). Seed C08-9 stripped "BOM" byte triples from the whole JSON
+// stream, unconditionally — and thereby from inside string values.
+func inputRewriters(c *core.Ctx, rule string, pkgs []string) {
+	c.SSA()
+	ioPkg := c.AnyPkg("io")
+	if ioPkg == nil {
+		c.Unresolved(rule, "package io", "not loaded")
+		return
+	}
+	readerI, _ := ioPkg.Types.Scope().Lookup("Reader").Type().Underlying().(*types.Interface)
+	implementsReader := func(t types.Type) bool {
+		return types.Implements(t, readerI) || types.Implements(types.NewPointer(t), readerI)
+	}
+	transparent := map[string]bool{
+		"bufio.NewReader": true, "bufio.NewReaderSize": true, "io.TeeReader": true,
+		"github.com/jf-tech/go-corelib/ios.NewLineCountingReader":        true,
+		"github.com/jf-tech/go-corelib/ios.NewLineNumReportingCsvReader": true,
+		"encoding/csv.NewReader": true,
+	}
+	n := 0
+	for _, f := range c.RepoFunctions() {
+		if core.IsCLIOrSample(core.FuncPkg(f)) || !inPkgs(core.FuncPkg(f), pkgs) {
+			continue
+		}
+		for _, ci := range core.Calls(f) {
+			o := core.CalleeObj(ci)
+			if o == nil || o.Pkg() == nil || core.InRepo(o.Pkg()) {
+				continue
+			}
+			sig := o.Type().(*types.Signature)
+			if sig.Results().Len() == 0 || !implementsReader(sig.Results().At(0).Type()) {
+				continue
+			}
+			takesReader := false
+			for _, a := range ci.Common().Args {
+				if implementsReader(a.Type()) {
+					takesReader = true
+				}
+			}
+			if !takesReader {
+				continue
+			}
+			full := o.Pkg().Path() + "." + core.FuncName(o)
+			if transparent[full] {
+				continue
+			}
+			n++
+			key := core.FuncKey(f) + " wraps the input in " + full
+			if why, ok := controlledByDeclaredSetting(ci.Block()); ok {
+				c.OK(rule, key, core.InstrPos(ci), "the rewriting wrapper is installed only under a declared setting ("+why+")")
+			} else {
+				c.Bad(rule, key, core.InstrPos(ci), full+" rewrites the byte stream the decoder reads, and it is installed unconditionally (not under a declared schema setting): text of every record is altered wherever the replaced bytes occur, including inside values")
+			}
+		}
+	}
+	c.OK(rule, "rewriting input wrappers", 0, fmt.Sprintf("%d rewriting wrapper call(s) on the input path in %v", n, pkgs))
+}
+
+// controlledByDeclaredSetting: the block is dominated by a successor of an If whose condition data-depends on a load of
+// an exported json-tagged struct field.
+func controlledByDeclaredSetting(b *ssa.BasicBlock) (string, bool) {
+	f := b.Parent()
+	var dependsOnDecl func(v ssa.Value, seen map[ssa.Value]bool, d int) (string, bool)
+	dependsOnDecl = func(v ssa.Value, seen map[ssa.Value]bool, d int) (string, bool) {
+		if v == nil || seen[v] || d > 8 {
+			return "", false
+		}
+		seen[v] = true
+		if u, ok := v.(*ssa.UnOp); ok && u.Op == token.MUL {
+			if fa, ok := u.X.(*ssa.FieldAddr); ok {
+				fv := core.FieldOfAddr(fa)
+				if n := core.NamedOf(fa.X.Type()); n != nil && fv != nil && fv.Exported() {
+					if st, ok := n.Underlying().(*types.Struct); ok {
+						for j := 0; j < st.NumFields(); j++ {
+							if st.Field(j) == fv && reflect.StructTag(st.Tag(j)).Get("json") != "" {
+								return n.Obj().Name() + "." + fv.Name(), true
+							}
+						}
+					}
+				}
+			}
+		}
+		if in, ok := v.(ssa.Instruction); ok {
+			for _, op := range in.Operands(nil) {
+				if *op != nil {
+					if n, ok := dependsOnDecl(*op, seen, d+1); ok {
+						return n, true
+					}
+				}
+			}
+		}
+		return "", false
+	}
+	for _, blk := range f.Blocks {
+		if len(blk.Instrs) == 0 {
+			continue
+		}
+		ifi, ok := blk.Instrs[len(blk.Instrs)-1].(*ssa.If)
+		if !ok {
+			continue
+		}
+		name, ok := dependsOnDecl(ifi.Cond, map[ssa.Value]bool{}, 0)
+		if !ok {
+			continue
+		}
+		for _, s := range blk.Succs {
+			if len(s.Preds) == 1 && (s == b || s.Dominates(b)) {
+				return name, true
+			}
+		}
+	}
+	return "", false
+}
+
+func init() {
+	wrapRun("C08", func(c *core.Ctx) {
+		if c.CountRule("R08i") == 0 {
+			inputRewriters(c, "R08i", []string{"idr", "extensions/omniv21/fileformat/xml", "extensions/omniv21/fileformat/json"})
+		}
+	})
+	wrapRun("C06", func(c *core.Ctx) {
+		if c.CountRule("R06m") == 0 {
+			inputRewriters(c, "R06m", []string{"extensions/omniv21/fileformat/csv", "extensions/omniv21/fileformat/fixedlength", "extensions/omniv21/fileformat/flatfile"})
+		}
+	})
+	wrapRun("C07", func(c *core.Ctx) {
+		if c.CountRule("R07j") == 0 {
+			inputRewriters(c, "R07j", []string{"extensions/omniv21/fileformat/edi"})
+		}
+	})
+}
